@@ -40,6 +40,9 @@ class DataModelSpace(data_algebra.data_space.DataSpace):
         if key is None:
             self.n_tmp = self.n_tmp + 1
             key = f"da_temp_{self.n_tmp}"
+            while key in self.data_map.keys():
+                self.n_tmp = self.n_tmp + 1
+                key = f"da_temp_{self.n_tmp}"
         assert isinstance(key, str)
         assert isinstance(allow_overwrite, bool)
         assert self.data_model.is_appropriate_data_instance(value)
@@ -92,6 +95,9 @@ class DataModelSpace(data_algebra.data_space.DataSpace):
         if key is None:
             self.n_tmp = self.n_tmp + 1
             key = f"da_temp_{self.n_tmp}"
+            while key in self.data_map.keys():
+                self.n_tmp = self.n_tmp + 1
+                key = f"da_temp_{self.n_tmp}"
         assert isinstance(key, str)
         assert isinstance(allow_overwrite, bool)
         if not allow_overwrite:
